@@ -63,6 +63,23 @@ def run(chk):
     # the transcript fork included (IntegrityOrder): a weight that does not depend on an element lets a coordinated change of two elements cancel
     vlib.toy_ideal(chk, "toy31723", progs if not q else progs[::2], "TraceIdealIntegrity", "integrity-toy", "tam31723",
                    fl=dict(vlib.flags(), CMP_I="1"))
+    # altered proofs presented together: batch_verify is verification too. Two copies of one proof whose final scalar is shifted by +d and by
+    # -d are each rejected on their own and must not carry each other through a batch (alone, and between honest members)
+    from checks.C07 import run_jobs
+    bjobs = []
+    for n in ((1, 3) if q else (0, 1, 2, 3, 5, 8)):
+        plus, minus = member(n, "plus", "ib%d" % n, chk.seed + n), member(n, "minus", "ib%d" % n, chk.seed + n)
+        good = [member(n + 1, "good", "ibg%d" % k, chk.seed + 100 + k) for k in range(2)]
+        for k, ms in enumerate(([plus, minus], [minus, plus], [good[0], minus, good[1], plus])):
+            bjobs.append({"id": "altered-pair-n%d-%d" % (n, k), "members": ms, "seed": chk.seed + 31 * n + k, "kinds": [m["id"] for m in ms], "expect": "reject"})
+    for c in vlib.REAL_CURVES:
+        rows, _ = run_jobs(chk, c, bjobs)
+        for row in rows:
+            chk.count_case([c, "batch", row["job"]["id"]])
+            chk.cov["replayed_behaviours"] += 1
+            if row["batch"] == "ok" or row["batch"].startswith("panic"):
+                chk.violation("integrity-batch-%s-%s" % (c, row["job"]["id"]), {"curve": c, "job": row["job"], "individual": row["individual"], "batch": row["batch"]},
+                              "a batch with two altered proofs (final scalar +d / -d; individually %s) returned %s" % (row["individual"], row["batch"]))
     # every single-bit flip of the encoding, exhaustively
     shapes = [member(2, "good", "flip", chk.seed), two_phase(1, "flip", chk.seed + 1)] if q else \
              [member(n, "good", "flip", chk.seed + n) for n in (0, 1, 2, 3, 5, 8)] + [two_phase(n, "flip", chk.seed + 20 + n) for n in (1, 2, 3)]
